@@ -60,6 +60,14 @@ Print Assumptions C08_rebind_unaffected_by_accessor_flag.
 Theorem C08_seal_is_deep : forall b n, every (sealed_is b) (seal_rec b n).
 Proof. exact seal_rec_deep. Qed.
 Print Assumptions C08_seal_is_deep.
+(* (the step `x.seal(b)`: the node at the position is replaced by its deeply (un)sealed version, nothing else changes) *)
+Theorem C08_seal_step : forall q st sc ps b tgt,
+  get_at st ps = Some tgt -> is_node tgt = true ->
+  fst (step q st (mkSop sc ps (Seal b))) = update_at st ps (seal_rec b) /\
+  get_at (fst (step q st (mkSop sc ps (Seal b)))) ps = Some (seal_rec b tgt) /\
+  every (sealed_is b) (seal_rec b tgt).
+Proof. exact seal_step. Qed.
+Print Assumptions C08_seal_step.
 (* ... changes nothing else ... *)
 Theorem C08_seal_only_flag : forall b n, unsealed_view (seal_rec b n) = unsealed_view n.
 Proof. exact seal_rec_only_flag. Qed.
